@@ -3,5 +3,6 @@ From Coq Require Import NArith List.
 From ZV.Cli Require Import FsModel FioModel SparseModel.
 Require Import ExtrOcamlBasic.
 Extraction "Extract/out/c19model.ml"
-  fio_ops run run_h sigint_ops handler_ops dst_of dsel_of frames_loop
+  fio_ops eff_srcs run run_h sigint_ops handler_ops dst_of dsel_of frames_loop stdinmark stdoutmark
+  sparse_init sparse_open dst_writer_ops
   fwrite_sparse fwrite_sparse_end sparse_ops sparse_frames_ops plain_ops s_run empty_file.
